@@ -34,7 +34,7 @@ PROBES = ["sched/messages", "sched/delayed_messages", "sched/stalls", "sched/sta
           "sched/recv_blocked_on_undelivered", "sched/reordered_deliveries", "probes/two_chunks_on_periodic_axis",
           "probes/uneven_chunks", "probes/single_cell_chunk", "probes/script_solve", "probes/script_operator",
           "probes/adaptive_allreduce", "probes/collection_state", "faults/fired_stop_on_main_rank", "probes/vector_or_tensor_field", "probes/integral_allreduce",
-          "probes/skipped_inadmissible"]
+          "probes/skipped_inadmissible", "probes/setup_invariants_on_large_decomposition", "probes/eleven_or_more_chunks_on_an_axis"]
 COMPONENTS = {
     "real": ["pde.grids._mesh.GridMesh (split/combine/neighbours/flags/extract_boundary_conditions)", "pde.grids.boundaries.local._MPIBC",
              "BoundaryAxisBase.set_ghost_cells exchange", "pde.backends.numba_mpi.NumbaMPIBackend sender/setter chains (python mode)",
@@ -210,6 +210,26 @@ def gen_plan(rng, tier, idx):
             # the client ranks are somewhere inside their stepping loop and have to be released
             plan["stop"] = {"call": rng.randint(0, 3), "kind": rng.choice(["StopIteration", "FinishedSimulation"]),
                             "msg": rng.choice([None, "enough"])}
+    # The setup invariants (tiling, split/combine, neighbours, link flags) need no rank processes: a third of the plans
+    # also evaluates them for a decomposition far beyond the number of simulated ranks - "any number of chunks per axis up
+    # to the number of cells" (drawn last so that the rest of a plan is what it was before this element existed)
+    if rng.random() < 0.35:
+        nd_b = rng.choice([1, 1, 2])
+        shape_b = [rng.randint(2, 70) for _ in range(nd_b)]
+        dec_b = [min(n, rng.choice([1, 2, 3, 5, 7, 11, 13, n, max(1, n - 1), rng.randint(1, n), rng.randint(1, n)])) for n in shape_b]
+        while int(np.prod(dec_b)) > 160:
+            k = dec_b.index(max(dec_b))
+            dec_b[k] = max(1, dec_b[k] // 2)
+        kind = rng.choice(["UnitGrid", "CartesianGrid", "CartesianGrid", "PolarSymGrid"])
+        if kind == "PolarSymGrid":
+            g_b = {"cls": "PolarSymGrid", "radius": rng.choice([2.0, [0.5, 3.0]]), "shape": shape_b[:1], "periodic": [False]}
+            dec_b = dec_b[:1]
+        elif kind == "UnitGrid":
+            g_b = {"cls": "UnitGrid", "shape": shape_b, "periodic": [rng.random() < 0.5 for _ in shape_b]}
+        else:
+            g_b = {"cls": "CartesianGrid", "bounds": [[rng.choice([0.0, -1.0, 0.3]), rng.choice([1.0, 2.5, 7.0])] for _ in shape_b],
+                   "shape": shape_b, "periodic": [rng.random() < 0.5 for _ in shape_b]}
+        plan["big_mesh"] = {"grid": g_b, "decomposition": dec_b}
     return plan
 
 
@@ -548,6 +568,12 @@ def execute(plan):
     gspec = plan["grid"]
     grid = _build_grid(gspec)
     mesh = _mesh_invariants(plan, fail, probe)
+    if plan.get("big_mesh") and viol is None:
+        _mesh_invariants({**plan, "grid": plan["big_mesh"]["grid"], "decomposition": plan["big_mesh"]["decomposition"], "dtype": "float"},
+                         fail, probe)
+        probe("setup_invariants_on_large_decomposition")
+        if max(plan["big_mesh"]["decomposition"]) >= 11:
+            probe("eleven_or_more_chunks_on_an_axis")
     # ---- serial reference on the undivided grid
     ref = {}
     ref_exc = None
@@ -718,6 +744,14 @@ def simplify(plan):
         return p
 
     s = plan["sched"]
+    if plan.get("big_mesh"):
+        yield variant(lambda p: p.pop("big_mesh"))
+        bm = plan["big_mesh"]
+        if len(bm["decomposition"]) > 1:
+            yield variant(lambda p: p["big_mesh"].update(decomposition=p["big_mesh"]["decomposition"][:1],
+                                                         grid={**p["big_mesh"]["grid"], "shape": p["big_mesh"]["grid"]["shape"][:1],
+                                                               "periodic": p["big_mesh"]["grid"]["periodic"][:1],
+                                                               **({"bounds": p["big_mesh"]["grid"]["bounds"][:1]} if "bounds" in p["big_mesh"]["grid"] else {})}))
     if s["p_delay"]:
         yield variant(lambda p: p["sched"].update(p_delay=0.0))
     if s["p_stall"]:
